@@ -64,7 +64,8 @@ def place_loops(rng, song, mode, force_cc=False):
     """mode: valid | startonly | endonly | invalid | hmi | emidi | random"""
     if mode == "random":
         mode = rng.choice(["valid", "valid", "valid", "startonly", "endonly", "invalid", "hmi", "emidi"])
-    tr = song["tracks"][rng.randrange(len(song["tracks"]))]["ev"]
+    ti = rng.randrange(len(song["tracks"]))
+    tr = song["tracks"][ti]["ev"]
     use_cc = force_cc or rng.random() < 0.25
     def ins(pos, kind, dt):
         if kind == "loopstart" and use_cc:
@@ -89,7 +90,8 @@ def place_loops(rng, song, mode, force_cc=False):
         # a second CC110 makes the file EMIDI style: later CC110 / CC111 are plain controllers, CC113 is the volume (CC7);
         # the first CC110 stays the loop start, a CC111 met before the second CC110 stays the loop end
         a = rng.randrange(1, max(2, n - 1)); b = rng.randrange(a + 1, n + 1)
-        tr.insert(b, [rng.choice([1, 48]), {"k": "cc", "ch": 0, "n": 113, "v": rng.choice([0, 64, 127])}])
+        # (CC113 acts on a channel: it goes to the track's own channel - the reference folds channel state per track)
+        tr.insert(b, [rng.choice([1, 48]), {"k": "cc", "ch": ti, "n": 113, "v": rng.choice([0, 64, 127])}])
         tr.insert(b, [rng.choice([0, 10]), {"k": "cc111", "ch": 0, "v": 0}])
         tr.insert(b, [rng.choice([1, 48]), {"k": "cc", "ch": 0, "n": 110, "v": 0}])
         if rng.random() < 0.5: tr.insert(b, [rng.choice([1, 48]), {"k": "cc111", "ch": 0, "v": 0}])
